@@ -114,7 +114,9 @@ inductive TopoErr where
   | badAdj (t1 t2 : Nat) (e0 e1 : Nat)
 deriving DecidableEq, Repr
 
-/-- a `TriMesh` without its QBVH -/
+/-- a `TriMesh`.  The QBVH is represented by the data it was last built from: `qbvh = some cs` when
+`rebuild_qbvh` last ran on triangles with vertex coordinates `cs` (leaf `i` holds the box of `cs[i]`),
+`none` for `Qbvh::new()` (no node). -/
 structure Mesh (V N : Type) where
   vertices : List V
   indices : List Tri
@@ -122,6 +124,7 @@ structure Mesh (V N : Type) where
   topology : Option Topology
   cc : Option CC
   flags : Flags
+  qbvh : Option (List (V × V × V)) := none
 
 /-- the derived (cached) data of a mesh -/
 structure Derived (N : Type) where
@@ -416,9 +419,12 @@ def computePN [Geo V N] (vs : List V) (idx : List Tri) : Option (PN N) :=
 
 /-! ## state-level steps -/
 
-/-- `rebuild_qbvh` only reads `vertices[idx[k]]` for every triangle: `none` = panic -/
-def rebuildQbvh (s : Mesh V N) : Option Unit :=
-  if inBounds s.vertices.length s.indices then some () else none
+/-- `rebuild_qbvh` reads `vertices[idx[k]]` for every triangle (`none` = panic) and rebuilds the tree from the
+triangles' boxes -/
+def rebuildQbvh (s : Mesh V N) : Option (Mesh V N) :=
+  match allCoords s.vertices s.indices with
+  | none => none
+  | some cs => some { s with qbvh := some cs }
 
 /-- `compute_connected_components` -/
 def ccStep (s : Mesh V N) : Option (Mesh V N) :=
@@ -491,8 +497,8 @@ def ccStage (s : Mesh V N) (diff : Flags) : Option (Mesh V N) :=
 def pnStage [Geo V N] (dim3 : Bool) (s : Mesh V N) (diff : Flags) : Option (Mesh V N) :=
   if dim3 && diff.pnFamily then pnStep s else some s
 
-def qbvhStage (prevLen : Nat) (s : Mesh V N) : Option Unit :=
-  if prevLen != s.indices.length then rebuildQbvh s else some ()
+def qbvhStage (prevLen : Nat) (s : Mesh V N) : Option (Mesh V N) :=
+  if prevLen != s.indices.length then rebuildQbvh s else some s
 
 /-- `set_flags` with `fixes/C11-set-flags-stale.diff` -/
 def setFlags [Geo V N] (dim3 : Bool) (s : Mesh V N) (flags : Flags) : Option (Mesh V N × Option TopoErr) :=
@@ -500,8 +506,8 @@ def setFlags [Geo V N] (dim3 : Bool) (s : Mesh V N) (flags : Flags) : Option (Me
   (topoStage s1.1 flags s1.2).bind fun s2 =>
   (ccStage s2.1 s2.2.2).bind fun s3 =>
   (pnStage dim3 s3 s2.2.2).bind fun s4 =>
-  (qbvhStage s.indices.length s4).bind fun _ =>
-  some ({ s4 with flags := flags }, s2.2.1)
+  (qbvhStage s.indices.length s4).bind fun s5 =>
+  some ({ s5 with flags := flags }, s2.2.1)
 
 /-! `set_flags` **as written on the pinned tree**, stage by stage -/
 
@@ -522,11 +528,11 @@ def setFlagsW [Geo V N] (dim3 : Bool) (s : Mesh V N) (flags : Flags) : Option (M
   (topoStageW s1 flags (flags.diff s.flags)).bind fun s2 =>
   (ccStage s2.1 (flags.diff s.flags)).bind fun s3 =>
   (pnStage dim3 s3 (flags.diff s.flags)).bind fun s4 =>
-  (qbvhStage s.indices.length s4).bind fun _ =>
-  some ({ s4 with flags := flags }, s2.2)
+  (qbvhStage s.indices.length s4).bind fun s5 =>
+  some ({ s5 with flags := flags }, s2.2)
 
 def blank (vs : List V) (idx : List Tri) : Mesh V N :=
-  { vertices := vs, indices := idx, pn := none, topology := none, cc := none, flags := Flags.empty }
+  { vertices := vs, indices := idx, pn := none, topology := none, cc := none, flags := Flags.empty, qbvh := none }
 
 /-- result of `TriMesh::with_flags` -/
 inductive Built (V N : Type) where
@@ -534,20 +540,21 @@ inductive Built (V N : Type) where
   | emptyIndices
   | ok (s : Mesh V N)
 
-/-- `with_flags` without the `indices.is_empty()` test: `set_flags` on the blank mesh, then the QBVH -/
+/-- `if result.qbvh.raw_nodes().is_empty() { result.rebuild_qbvh() }` -/
+def ensureQbvh (s : Mesh V N) : Option (Mesh V N) :=
+  if s.qbvh.isNone then rebuildQbvh s else some s
+
+/-- `with_flags` without the `indices.is_empty()` test: `set_flags` on the blank mesh, then the QBVH if
+`set_flags` has not built it -/
 def buildCore [Geo V N] (dim3 : Bool) (vs : List V) (idx : List Tri) (flags : Flags) : Option (Mesh V N) :=
   match setFlags dim3 (blank vs idx) flags with
   | none => none
-  | some (s, _) => match rebuildQbvh s with
-    | none => none
-    | some _ => some s
+  | some (s, _) => ensureQbvh s
 
 def buildCoreW [Geo V N] (dim3 : Bool) (vs : List V) (idx : List Tri) (flags : Flags) : Option (Mesh V N) :=
   match setFlagsW dim3 (blank vs idx) flags with
   | none => none
-  | some (s, _) => match rebuildQbvh s with
-    | none => none
-    | some _ => some s
+  | some (s, _) => ensureQbvh s
 
 /-- `TriMesh::with_flags` -/
 def withFlags [Geo V N] (dim3 : Bool) (vs : List V) (idx : List Tri) (flags : Flags) : Built V N :=
